@@ -151,6 +151,11 @@ class ModelMixin3:
             self.hook('str-test', st, node, recv=recv, name=name, args=args, taken=True)
             self.hook('str-test', s2, node, recv=recv, name=name, args=args, taken=False)
             return [(Const(True), st), (Const(False), s2)]
+        if name in ('partition', 'rpartition'):
+            if not args or isinstance(args[0], NoneV):
+                return [(self.exc('TypeError', st, node, f'str.{name}(None)'), st)]
+            base = recv.origin if isinstance(recv, StrV) else ()
+            return [(TupleV(tuple(StrV((name, k, base)) for k in ('head', 'sep', 'tail'))), st)]       # always exactly three strings
         if name in ('split', 'rsplit', 'splitlines', 'partition', 'rpartition'):
             sym = st.new(ListE('str', 1, None, stages=('split',)))
             return [(Ref('list', sym), st)]
